@@ -51,7 +51,7 @@ var CMSMutationClasses = []string{
 	"issuer_change", "serial_change", "digest_attr_rewrite", "digest_attr_rewrite_and_content",
 	"sig_flip", "sig_by_other_key", "digestalg_change", "sigalg_change", "null_params_toggle",
 	"second_signer", "outer_strip", "outer_add", "attrs_retag_set", "attrs_remove_all", "attrs_empty",
-	"foreign_content_and_signer", "foreign_content_and_signer",
+	"foreign_content_and_signer", "foreign_content_and_signer", "issuer_string_retag",
 }
 
 // MutateCMS derives an adversarial blob from a parsable SignedData. It returns
@@ -263,6 +263,32 @@ func MutateCMS(t *rapid.T, blob []byte, env MutEnv) ([]byte, string) {
 			return nil, na
 		}
 		s.IAS.Children[0] = oi.Clone()
+	case "issuer_string_retag":
+		// the same characters under another ASN.1 string type: another name as far as byte comparison goes
+		if s.Issuer == nil {
+			return nil, na
+		}
+		var ls []*der.Node
+		leaves(s.Issuer, &ls)
+		var strs []*der.Node
+		for _, l := range ls {
+			if l.Class == der.ClassUniversal && (l.Tag == der.TagPrintable || l.Tag == der.TagUTF8String || l.Tag == 22 || l.Tag == 20) {
+				strs = append(strs, l)
+			}
+		}
+		if len(strs) == 0 {
+			return nil, na
+		}
+		n := strs[rapid.IntRange(0, len(strs)-1).Draw(t, "whichstring")]
+		alts := []uint32{der.TagUTF8String, der.TagPrintable, 22, 20}
+		nt := alts[rapid.IntRange(0, len(alts)-1).Draw(t, "newtag")]
+		if nt == n.Tag {
+			nt = alts[(rapid.IntRange(0, len(alts)-1).Draw(t, "newtag2")+1)%len(alts)]
+			if nt == n.Tag {
+				return nil, na
+			}
+		}
+		n.Tag = nt
 	case "serial_change":
 		if s.Serial == nil || len(s.Serial.Content) == 0 {
 			return nil, na
